@@ -79,6 +79,19 @@ func runCodecLists(rep *Report) {
 	for i := 0; i < n1; i++ {
 		m, id, c := r.Intn(2) == 1, randID(r), randCount(r)
 		enc := txfile.VerifEncodeRegion(m, id, c)
+		switch {
+		case c == 254:
+			rep.Markers["region-254"]++
+		case c == 255:
+			rep.Markers["region-255"]++
+		case c == 256:
+			rep.Markers["region-256"]++
+		case c == 0xFFFFFFFF:
+			rep.Markers["region-maxcount"]++
+		}
+		if id >= 1<<55 {
+			rep.Markers["region-id-too-large"]++
+		}
 		fmt.Fprintf(out, "encregion %d %d %d => %s\n", b2i(m), id, c, hex.EncodeToString(enc))
 		// decode with trailing garbage
 		buf := append(append([]byte(nil), enc...), byte(r.Intn(256)), byte(r.Intn(256)), byte(r.Intn(256)), byte(r.Intn(256)))
@@ -164,7 +177,14 @@ func runCodecLists(rep *Report) {
 				valid = false // an empty region is not a region (out of contract)
 			}
 		}
+		if err != nil {
+			rep.Markers["freelist-too-few-pages"]++
+		}
 		if err == nil && valid && len(pages) == len(to) && len(to) > 0 {
+			rep.Markers["freelist-roundtrip"]++
+			if len(to) > 1 {
+				rep.Markers["freelist-roundtrip-multipage"]++
+			}
 			// implementation-level round trip: what was written is what recovery reads
 			var rm, rd [][2]uint64
 			var rerr error
